@@ -181,29 +181,29 @@ func init() {
 		"(*sync.Pool).Put": retNil,
 
 		// ---- sync/atomic ----
-		"sync/atomic.LoadInt32":   atomicLoad,
-		"sync/atomic.LoadInt64":   atomicLoad,
-		"sync/atomic.LoadUint32":  atomicLoad,
-		"sync/atomic.LoadUint64":  atomicLoad,
-		"sync/atomic.LoadUintptr": atomicLoad,
-		"sync/atomic.LoadPointer": atomicLoad,
-		"sync/atomic.StoreInt32":   atomicStore,
-		"sync/atomic.StoreInt64":   atomicStore,
-		"sync/atomic.StoreUint32":  atomicStore,
-		"sync/atomic.StoreUint64":  atomicStore,
-		"sync/atomic.StoreUintptr": atomicStore,
-		"sync/atomic.StorePointer": atomicStore,
-		"sync/atomic.SwapInt32":   atomicSwap,
-		"sync/atomic.SwapInt64":   atomicSwap,
-		"sync/atomic.SwapUint32":  atomicSwap,
-		"sync/atomic.SwapUint64":  atomicSwap,
-		"sync/atomic.SwapUintptr": atomicSwap,
-		"sync/atomic.SwapPointer": atomicSwap,
-		"sync/atomic.AddInt32":   atomicAdd,
-		"sync/atomic.AddInt64":   atomicAdd,
-		"sync/atomic.AddUint32":  atomicAdd,
-		"sync/atomic.AddUint64":  atomicAdd,
-		"sync/atomic.AddUintptr": atomicAdd,
+		"sync/atomic.LoadInt32":             atomicLoad,
+		"sync/atomic.LoadInt64":             atomicLoad,
+		"sync/atomic.LoadUint32":            atomicLoad,
+		"sync/atomic.LoadUint64":            atomicLoad,
+		"sync/atomic.LoadUintptr":           atomicLoad,
+		"sync/atomic.LoadPointer":           atomicLoad,
+		"sync/atomic.StoreInt32":            atomicStore,
+		"sync/atomic.StoreInt64":            atomicStore,
+		"sync/atomic.StoreUint32":           atomicStore,
+		"sync/atomic.StoreUint64":           atomicStore,
+		"sync/atomic.StoreUintptr":          atomicStore,
+		"sync/atomic.StorePointer":          atomicStore,
+		"sync/atomic.SwapInt32":             atomicSwap,
+		"sync/atomic.SwapInt64":             atomicSwap,
+		"sync/atomic.SwapUint32":            atomicSwap,
+		"sync/atomic.SwapUint64":            atomicSwap,
+		"sync/atomic.SwapUintptr":           atomicSwap,
+		"sync/atomic.SwapPointer":           atomicSwap,
+		"sync/atomic.AddInt32":              atomicAdd,
+		"sync/atomic.AddInt64":              atomicAdd,
+		"sync/atomic.AddUint32":             atomicAdd,
+		"sync/atomic.AddUint64":             atomicAdd,
+		"sync/atomic.AddUintptr":            atomicAdd,
 		"sync/atomic.CompareAndSwapInt32":   atomicCAS,
 		"sync/atomic.CompareAndSwapInt64":   atomicCAS,
 		"sync/atomic.CompareAndSwapUint32":  atomicCAS,
@@ -240,10 +240,10 @@ func init() {
 		},
 
 		// ---- time ----
-		"time.Now":        func(fr *frame, a []value) value { return fr.i.timeNow(fr) },
-		"time.now":        func(fr *frame, a []value) value { return tuple{int64(1700000000), int32(0), int64(1000000000)} },
+		"time.Now":         func(fr *frame, a []value) value { return fr.i.timeNow(fr) },
+		"time.now":         func(fr *frame, a []value) value { return tuple{int64(1700000000), int32(0), int64(1000000000)} },
 		"time.runtimeNano": func(fr *frame, a []value) value { return int64(1000000000) },
-		"time.Sleep":      retNil,
+		"time.Sleep":       retNil,
 		"runtime.nanotime": func(fr *frame, a []value) value { return int64(1000000000) },
 	})
 }
